@@ -9,7 +9,9 @@ META = {
             "AST for any number of parameters, with the likelihood an uninterpreted function of the parameter vector (finite, as in the property's quantifier): non-positive "
             "or NaN curvature gives a NaN code length; otherwise every parameter with Nsteps < 1 is zeroed and dropped, k counts the kept ones, the reported "
             "negative log-likelihood is the likelihood at the reported (zeroed, zero-padded) parameters, and codelen = -(k/2) ln 3 + sum over kept of (1/2 ln I_ii + ln|theta_i|) "
-            "(0 when nothing is kept). The numerical Hessian, the retry over step sizes, the two lines computing Nsteps = |theta| sqrt(I_ii/12) and the fallback subset search "
+            "(0 when nothing is kept). The loop body of test_all_Fisher.main is verified as well: row i of the parameter / Hessian tables and entry i of the likelihood / code-length "
+            "columns are the four results of one convert_params call for function i, the Hessian table has max_param (max_param + 1) / 2 columns (the length convert_params returns), "
+            "a function that cannot be evaluated gets a zero row, other rows are untouched. The numerical Hessian, the retry over step sizes, the two lines computing Nsteps = |theta| sqrt(I_ii/12) and the fallback subset search "
             "(reachable only when the snapped likelihood is infinite) are outside the region: they are covered by the bounded stand-in (real GaussLikelihood, analytic-Hessian "
             "oracle, threshold categories), which is not counted as proved.",
     "note": "A-float; Nsteps is an abstract array of finite non-negative numbers inside the region (its defining formula is exercised by the bounded part); 'kept implies theta != 0' "
@@ -27,7 +29,24 @@ def check(run):
     if D.canary(run, "fitting/test_all_Fisher.py", "convert_params", c_fisher.fisher_region_contract) is False:
         raise RuntimeError("canary verified: engine vacuous on convert_params region")
     found, B = _wrap.run_bounded(run, "checks.C07_bounded")
+    # one table row per function in test_all_Fisher.main (region: allocation of the per-rank tables + loop body)
+    rfailed = []
+    for v in ("ok", "nameerror", "exception"):
+        st_, f_, _e = D.verify_function(run, "fitting/test_all_Fisher.py", "main", (lambda v=v: c_fisher.main_rows_contract(v)), timeout_ms=8000, tag="rows/" + v,
+                                        note="region: allocation of codelen/params/deriv + body of the loop over this rank's functions; run_sympify and convert_params through "
+                                             "call-site contracts (variant: they return / raise NameError / raise another exception)")
+        rfailed += f_
+    if D.canary(run, "fitting/test_all_Fisher.py", "main", (lambda: c_fisher.main_rows_contract("ok"))) is False:
+        raise RuntimeError("canary verified: engine vacuous on test_all_Fisher.main rows region")
+    rr = run.harness("rt_rows.py", {"mode": "fisher_rows", "seed": run.seed, "K": [4, 5, 6] if run.tier == "quick" else [1, 2, 3, 4, 5, 6, 7]}, timeout=900)
+    run.add_bounded("test_all_Fisher.main: row i of both output files = the results of convert_params for function i; Hessian file has K (K + 1) / 2 columns",
+                    "esr/fitting/test_all_Fisher.py::main", "synthetic fit results with K parameter columns (K > 4 is what complexities >= 11 produce), 0..K-parameter linear functions, one rank",
+                    rr["cases"], rr["distinct"], len(rr["failures"]))
+    for f in rr["failures"][:1]:
+        found = True
+        run.violation("c07:rows:K=%d" % f["K"], f["error"][:900], {"harness": "rt_rows.py", "payload": {"mode": "fisher_rows", "seed": run.seed, "K": [f["K"]]}})
     _wrap.report_unproved(run, failed, found, "test_all_Fisher.convert_params")
+    _wrap.report_unproved(run, rfailed, found or bool(run.violations), "test_all_Fisher.main (rows region)")
     run.assume("A-float", "A-ext (numpy models)", "lemma library: counting facts, sum extensionality", "Nsteps abstracted inside the region")
     run.trust("pyvc", "z3 5.1.0")
     return run.finish("proof", META["text"], CHECKER)
